@@ -21,10 +21,19 @@ expression (`to_expr`) and shrunk structurally (`children`).
     ["subclass", spec, exactly]           SubclassValue(TypedValue|TypeVarValue)
     ["typevar", name]                     TypeVarValue from TYPEVARS (free / bounded / constrained)
     ["union", [spec...]]                  raw MultiValuedValue([...]) - may nest
+    ["paramspec", name]                   TypeVarValue(PARAMSPECS[name], is_paramspec=True); only as the annotation of a
+                                          callable parameter of kind "ps" (Callable[Concatenate[..., P], R])
+    ["ps_args", name] / ["ps_kwargs", name]   ParamSpecArgsValue / ParamSpecKwargsValue (leaves)
+    ["overloaded", [callable-spec...]]    CallableValue(OverloadedSignature([...]))
+    ["alias", name, [spec...]]            TypeAliasValue(name, module, ALIASES[name], type_arguments)
+    ["asynctask", spec]                   AsyncTaskIncompleteValue(Awaitable, value)
+    ["method", attr_name, spec]           UnboundMethodValue(attr_name, Composite(value))
+    callable parameter kinds: po pk va ko vk, + "ps" (PARAM_SPEC, annotation ["paramspec", n]) and "el" (ELLIPSIS)
 
     metadata forms (inside "annotated"): ["deprecated", msg] ["always_present"] ["definite", bool]
     ["literal_only"] ["check_gt", int|typevar-name] ["typeguard", spec] ["typeis", spec]
-    ["param_typeguard", varname, spec] ["hasattr", attr_name, spec]  or any Value spec.
+    ["param_typeguard", varname, spec] ["hasattr", attr_name, spec] ["noreturn_guard", varname, spec]
+    ["hasattr_guard", varname, attr_name, spec]  or any Value spec.
 
 Type-variable maps are {typevar-name: spec}; `Builder.build_map` turns them into {TypeVar: Value}.
 """
@@ -36,13 +45,17 @@ from dataclasses import dataclass
 from typing import Any, Iterable, Iterator, NewType, Optional, TypeVar, Union
 
 from pyanalyze.extensions import CustomCheck, LiteralOnly
-from pyanalyze.signature import ParameterKind, Signature, SigParameter
+from typing_extensions import ParamSpec
+
+from pyanalyze.signature import OverloadedSignature, ParameterKind, Signature, SigParameter
+from pyanalyze.stacked_scopes import Composite
 from pyanalyze.value import (
     NO_RETURN_VALUE,
     AlwaysPresentExtension,
     AnnotatedValue,
     AnySource,
     AnyValue,
+    AsyncTaskIncompleteValue,
     CallableValue,
     CustomCheckExtension,
     DefiniteValueExtension,
@@ -50,19 +63,26 @@ from pyanalyze.value import (
     DictIncompleteValue,
     GenericValue,
     HasAttrExtension,
+    HasAttrGuardExtension,
     KnownValue,
     KVPair,
     MultiValuedValue,
     NewTypeValue,
+    NoReturnGuardExtension,
     ParameterTypeGuardExtension,
+    ParamSpecArgsValue,
+    ParamSpecKwargsValue,
     SequenceValue,
     SubclassValue,
     TypedDictEntry,
     TypedDictValue,
     TypedValue,
+    TypeAlias,
+    TypeAliasValue,
     TypeGuardExtension,
     TypeIsExtension,
     TypeVarValue,
+    UnboundMethodValue,
     Value,
 )
 
@@ -117,12 +137,12 @@ TYPES = {
     "list": list, "dict": dict, "set": set, "tuple": tuple, "type": type, "NoneType": type(None),
     "C": C, "D": D, "Color": Color, "frozenset": frozenset,
     "Sequence": collections.abc.Sequence, "Mapping": collections.abc.Mapping,
-    "Iterable": collections.abc.Iterable,
+    "Iterable": collections.abc.Iterable, "Awaitable": collections.abc.Awaitable,
 }
 TYPE_EXPR = {
     "NoneType": "type(None)", "C": "valuegen.C", "D": "valuegen.D", "Color": "valuegen.Color",
     "Sequence": "collections.abc.Sequence", "Mapping": "collections.abc.Mapping",
-    "Iterable": "collections.abc.Iterable",
+    "Iterable": "collections.abc.Iterable", "Awaitable": "collections.abc.Awaitable",
 }
 NEWTYPES = {"UserId": UserId, "Name": Name}
 KNOWN_OBJECTS = {
@@ -149,10 +169,32 @@ TYPEVARS = {
 }
 TYPEVAR_BY_OBJ = {tv: name for name, (tv, _, _) in TYPEVARS.items()}
 
+# ParamSpecs are kept apart from TYPEVARS: a map may bind one only to a callable, Any or another ParamSpec
+P = ParamSpec("P")
+Q = ParamSpec("Q")
+PARAMSPECS = {"P": P, "Q": Q}
+
+# type aliases (PEP 695 `type ListOf[AT] = list[AT]`); their own parameters are never in a generated map's domain
+AT = TypeVar("AT")
+AU = TypeVar("AU")
+
+
+def _make_alias(make_value, params) -> TypeAlias:
+    return TypeAlias(make_value, lambda: params)
+
+
+# name -> (TypeAlias, number of type parameters)
+ALIASES = {
+    "IntOrStr": (_make_alias(lambda: TypedValue(int) | TypedValue(str), ()), 0),
+    "ListOf": (_make_alias(lambda: GenericValue(list, [TypeVarValue(AT)]), (AT,)), 1),
+    "PairOf": (_make_alias(lambda: SequenceValue(tuple, [(False, TypeVarValue(AT)), (False, TypeVarValue(AU))]), (AT, AU)), 2),
+}
+
 ANY_SOURCES = ["explicit", "unannotated", "inference", "generic_argument", "error", "unreachable"]
 KINDS = {
     "po": ParameterKind.POSITIONAL_ONLY, "pk": ParameterKind.POSITIONAL_OR_KEYWORD,
     "va": ParameterKind.VAR_POSITIONAL, "ko": ParameterKind.KEYWORD_ONLY, "vk": ParameterKind.VAR_KEYWORD,
+    "ps": ParameterKind.PARAM_SPEC, "el": ParameterKind.ELLIPSIS,
 }
 
 
@@ -184,6 +226,7 @@ class Builder:
 
     def __init__(self) -> None:
         self._unhashable: dict = {}
+        self._slots: list = []
 
     def unhashable(self, src: str, tag: str) -> Any:
         key = (src, tag)
@@ -221,12 +264,26 @@ class Builder:
             extra = b(spec[2]) if spec[2] is not None else None
             return TypedDictValue(items, extra_keys=extra, extra_keys_readonly=bool(spec[3]))
         if kind == "callable":
-            params = [
-                SigParameter(name, KINDS[k], default=(b(d) if d is not None else None), annotation=b(a))
-                for name, k, d, a in spec[1]
-            ]
-            cal = CALLABLES[spec[3]] if spec[3] is not None else None
-            return CallableValue(Signature.make(params, b(spec[2]), callable=cal))
+            return CallableValue(self.build_signature(spec))
+        if kind == "overloaded":
+            return CallableValue(OverloadedSignature([self.build_signature(s) for s in spec[1]]))
+        if kind == "paramspec":
+            return TypeVarValue(PARAMSPECS[spec[1]], is_paramspec=True)
+        if kind == "ps_args":
+            return ParamSpecArgsValue(PARAMSPECS[spec[1]])
+        if kind == "ps_kwargs":
+            return ParamSpecKwargsValue(PARAMSPECS[spec[1]])
+        if kind == "alias":
+            alias, nparams = ALIASES[spec[1]]
+            if len(spec[2]) not in (0, nparams):
+                raise ValueError(f"alias {spec[1]} takes {nparams} arguments")
+            return TypeAliasValue(spec[1], __name__, alias, tuple(b(s) for s in spec[2]))
+        if kind == "asynctask":
+            return AsyncTaskIncompleteValue(TYPES["Awaitable"], b(spec[1]))
+        if kind == "method":
+            return UnboundMethodValue(spec[1], Composite(b(spec[2])))
+        if kind == "_v":  # a ready-made value (see build_shell)
+            return self._slots[spec[1]]
         if kind == "annotated":
             return AnnotatedValue(b(spec[1]), [self.build_meta(m) for m in spec[2]])
         if kind == "subclass":
@@ -239,6 +296,25 @@ class Builder:
         if kind == "union":
             return MultiValuedValue([b(s) for s in spec[1]])
         raise ValueError(f"unknown spec {spec!r}")
+
+    def build_signature(self, spec) -> Signature:
+        b = self.build
+        params = []
+        for name, k, d, a in spec[1]:
+            if k == "ps" and a[0] not in ("paramspec", "_v"):
+                raise ValueError("a PARAM_SPEC parameter is annotated with its ParamSpec")
+            params.append(SigParameter(name, KINDS[k], default=(b(d) if d is not None else None), annotation=b(a)))
+        cal = CALLABLES[spec[3]] if spec[3] is not None else None
+        return Signature.make(params, b(spec[2]), callable=cal)
+
+    def build_shell(self, spec, child_values) -> Value:
+        """The constructor of `spec` (raw, as `build` applies it) over ready-made direct sub-values, given in the
+        order of children(spec)."""
+        self._slots = list(child_values)
+        try:
+            return self.build(with_children(spec, [["_v", i] for i in range(len(self._slots))]))
+        finally:
+            self._slots = []
 
     def build_meta(self, m):
         kind = m[0]
@@ -260,14 +336,20 @@ class Builder:
             return ParameterTypeGuardExtension(m[1], self.build(m[2]))
         if kind == "hasattr":
             return HasAttrExtension(KnownValue(m[1]), self.build(m[2]))
+        if kind == "noreturn_guard":
+            return NoReturnGuardExtension(m[1], self.build(m[2]))
+        if kind == "hasattr_guard":
+            return HasAttrGuardExtension(m[1], KnownValue(m[2]), self.build(m[3]))
         return self.build(m)
 
     def build_map(self, mapspec) -> dict:
-        return {TYPEVARS[name][0]: self.build(s) for name, s in mapspec.items()}
+        return {
+            (TYPEVARS[name][0] if name in TYPEVARS else PARAMSPECS[name]): self.build(s) for name, s in mapspec.items()
+        }
 
 
 META_KINDS = {"deprecated", "always_present", "definite", "literal_only", "check_gt", "typeguard", "typeis",
-              "param_typeguard", "hasattr"}
+              "param_typeguard", "hasattr", "noreturn_guard", "hasattr_guard"}
 
 
 # ---------------------------------------------------------------------------
@@ -290,13 +372,23 @@ def children(spec) -> list:
         return out
     if kind == "callable":
         return [a for _, _, _, a in spec[1]] + [spec[2]]
+    if kind == "overloaded":
+        return [c for s in spec[1] for c in children(s)]
+    if kind == "alias":
+        return list(spec[2])
+    if kind == "asynctask":
+        return [spec[1]]
+    if kind == "method":
+        return [spec[2]]
     if kind == "annotated":
         out = [spec[1]]
         for m in spec[2]:
             if m[0] in ("typeguard", "typeis"):
                 out.append(m[1])
-            elif m[0] in ("param_typeguard", "hasattr"):
+            elif m[0] in ("param_typeguard", "hasattr", "noreturn_guard"):
                 out.append(m[2])
+            elif m[0] == "hasattr_guard":
+                out.append(m[3])
             elif m[0] not in META_KINDS:
                 out.append(m)
         return out
@@ -326,6 +418,19 @@ def with_children(spec, new) -> list:
     if kind == "callable":
         params = [[n, k, d, a] for (n, k, d, _), a in zip(spec[1], new)]
         return ["callable", params, new[-1], spec[3]]
+    if kind == "overloaded":
+        sigs, at = [], 0
+        for s in spec[1]:
+            n = len(s[1]) + 1
+            sigs.append(with_children(s, new[at:at + n]))
+            at += n
+        return ["overloaded", sigs]
+    if kind == "alias":
+        return ["alias", spec[1], new]
+    if kind == "asynctask":
+        return ["asynctask", new[0]]
+    if kind == "method":
+        return ["method", spec[1], new[0]]
     if kind == "annotated":
         it = iter(new)
         inner = next(it)
@@ -333,8 +438,10 @@ def with_children(spec, new) -> list:
         for m in spec[2]:
             if m[0] in ("typeguard", "typeis"):
                 metas.append([m[0], next(it)])
-            elif m[0] in ("param_typeguard", "hasattr"):
+            elif m[0] in ("param_typeguard", "hasattr", "noreturn_guard"):
                 metas.append([m[0], m[1], next(it)])
+            elif m[0] == "hasattr_guard":
+                metas.append([m[0], m[1], m[2], next(it)])
             elif m[0] not in META_KINDS:
                 metas.append(next(it))
             else:
@@ -355,7 +462,7 @@ def spec_typevars(spec) -> set:
     """Names of the type variables that occur in the value described by `spec` (by construction)."""
     out = set()
     for s in walk_spec(spec):
-        if s[0] == "typevar":
+        if s[0] in ("typevar", "paramspec"):
             out.add(s[1])
         elif s[0] == "annotated":
             for m in s[2]:
@@ -380,6 +487,9 @@ def skeleton(spec, depth: int = 2) -> str:
         "typed_lit": "Typed[literal_only]", "newtype": "NewType", "generic": "Generic", "seq": "Sequence",
         "dict": "DictIncomplete", "typeddict": "TypedDict", "callable": "Callable", "annotated": "Annotated",
         "subclass": "Subclass", "typevar": "TypeVar", "union": "Union",
+        "paramspec": "ParamSpec", "ps_args": "ParamSpecArgs", "ps_kwargs": "ParamSpecKwargs",
+        "overloaded": "Callable[overloaded]", "alias": "TypeAlias", "asynctask": "AsyncTask", "method": "UnboundMethod",
+        "_v": "value",
     }[kind]
     if kind == "any" and spec[1] == "unreachable":
         name = "Any[unreachable]"
@@ -428,12 +538,22 @@ def to_expr(spec) -> str:
         extra = f", extra_keys={e(spec[2])}" if spec[2] is not None else ""
         return f"TypedDictValue({{{items}}}{extra})"
     if kind == "callable":
-        ps = ", ".join(
-            f"SigParameter({n!r}, ParameterKind.{KINDS[k].name}, default={e(d) if d is not None else None}, annotation={e(a)})"
-            for n, k, d, a in spec[1]
-        )
-        cal = f", callable=valuegen.CALLABLES[{spec[3]!r}]" if spec[3] is not None else ""
-        return f"CallableValue(Signature.make([{ps}], {e(spec[2])}{cal}))"
+        return f"CallableValue({_sig_expr(spec)})"
+    if kind == "overloaded":
+        return f"CallableValue(OverloadedSignature([{', '.join(_sig_expr(s) for s in spec[1])}]))"
+    if kind == "paramspec":
+        return f"TypeVarValue(valuegen.{spec[1]}, is_paramspec=True)"
+    if kind == "ps_args":
+        return f"ParamSpecArgsValue(valuegen.{spec[1]})"
+    if kind == "ps_kwargs":
+        return f"ParamSpecKwargsValue(valuegen.{spec[1]})"
+    if kind == "alias":
+        args = "".join(e(s) + ", " for s in spec[2])
+        return f"TypeAliasValue({spec[1]!r}, 'vp.valuegen', valuegen.ALIASES[{spec[1]!r}][0], ({args}))"
+    if kind == "asynctask":
+        return f"AsyncTaskIncompleteValue(collections.abc.Awaitable, {e(spec[1])})"
+    if kind == "method":
+        return f"UnboundMethodValue({spec[1]!r}, Composite({e(spec[2])}))"
     if kind == "annotated":
         return f"AnnotatedValue({e(spec[1])}, [{', '.join(meta_expr(m) for m in spec[2])}])"
     if kind == "subclass":
@@ -447,6 +567,16 @@ def to_expr(spec) -> str:
     if kind == "union":
         return f"MultiValuedValue([{', '.join(e(s) for s in spec[1])}])"
     raise ValueError(spec)
+
+
+def _sig_expr(spec) -> str:
+    e = to_expr
+    ps = ", ".join(
+        f"SigParameter({n!r}, ParameterKind.{KINDS[k].name}, default={e(d) if d is not None else None}, annotation={e(a)})"
+        for n, k, d, a in spec[1]
+    )
+    cal = f", callable=valuegen.CALLABLES[{spec[3]!r}]" if spec[3] is not None else ""
+    return f"Signature.make([{ps}], {e(spec[2])}{cal})"
 
 
 def meta_expr(m) -> str:
@@ -469,6 +599,10 @@ def meta_expr(m) -> str:
         return f"ParameterTypeGuardExtension({m[1]!r}, {to_expr(m[2])})"
     if kind == "hasattr":
         return f"HasAttrExtension(KnownValue({m[1]!r}), {to_expr(m[2])})"
+    if kind == "noreturn_guard":
+        return f"NoReturnGuardExtension({m[1]!r}, {to_expr(m[2])})"
+    if kind == "hasattr_guard":
+        return f"HasAttrGuardExtension({m[1]!r}, KnownValue({m[2]!r}), {to_expr(m[3])})"
     return to_expr(m)
 
 
@@ -578,9 +712,13 @@ def random_leaf(rng, typevars: bool = True):
     return ["typed", rng.choice(["int", "str"])]
 
 
-def random_meta(rng, depth, typevars):
+def random_meta(rng, depth, typevars, wide: bool = False):
+    sub = lambda: random_spec(rng, max(0, depth - 1), typevars, wide)  # noqa: E731
+    if wide and rng.random() < 0.25:
+        if rng.random() < 0.5:
+            return ["noreturn_guard", rng.choice(["x", "y"]), sub()]
+        return ["hasattr_guard", rng.choice(["x", "y"]), rng.choice(["attr", "name"]), sub()]
     r = rng.choice([0, 1, 2, 3, 4, 7, 8, 9])  # TypeGuard/TypeIs: see random_spec (only ever wrap bool)
-    sub = lambda: random_spec(rng, max(0, depth - 1), typevars)  # noqa: E731
     if r == 0:
         return ["deprecated", rng.choice(["old", "gone"])]
     if r == 1:
@@ -602,11 +740,71 @@ def random_meta(rng, depth, typevars):
     return ["known", rng.choice(["1", "'x'"])]
 
 
-def random_spec(rng, depth: int = 2, typevars: bool = True):
-    """A random well-formed Value spec of nesting depth <= depth."""
+def _random_callable_wide(rng, sub, typevars):
+    """Callable with any number of parameters per kind, optionally ending in a ParamSpec (Concatenate) or `...`."""
+    tail = rng.random()
+    params = []
+    if tail < 0.2:  # Callable[Concatenate[X, ..., P], R] / Callable[..., R]: required positional-only prefix only
+        for _ in range(rng.randrange(0, 3)):
+            params.append([f"p{len(params)}", "po", None, sub()])
+        if tail < 0.13:
+            params.append([f"p{len(params)}", "ps", None, ["paramspec", rng.choice(["P", "P", "Q"])]])
+        else:
+            params.append([f"p{len(params)}", "el", None, ["any", "explicit"]])
+        return ["callable", params, sub(), None]
+    counts = [("po", rng.choice([0, 0, 1, 2])), ("pk", rng.choice([0, 1, 1, 2])), ("va", int(rng.random() < 0.3)),
+              ("ko", rng.choice([0, 0, 1, 2])), ("vk", int(rng.random() < 0.3))]
+    seen_default = False
+    for k, n in counts:
+        for _ in range(n):
+            default = None
+            if k in ("po", "pk"):
+                if seen_default or rng.random() < 0.3:
+                    default = ["known", rng.choice(["1", "None"])]
+                    seen_default = True
+            elif k == "ko" and rng.random() < 0.4:
+                default = ["known", "1"]
+            ann = sub()
+            if (k == "va" and ann[0] == "seq") or (k == "vk" and ann[0] == "typeddict"):
+                ann = random_leaf(rng, typevars)
+            params.append([f"p{len(params)}", k, default, ann])
+    return ["callable", params, sub(), rng.choice([None, None, "fn_one", "fn_two", "len"])]
+
+
+def _random_wide(rng, depth, typevars):
+    """The constructors / nestings random_spec's narrow grammar never builds."""
+    sub = lambda: random_spec(rng, depth - 1, typevars, True)  # noqa: E731
+    r = rng.randrange(8)
+    if r == 0:  # Type[...] over any TypedValue subclass (or a type variable)
+        for _ in range(4):
+            s = sub()
+            if _typed_or_tv(s):
+                return ["subclass", s, rng.random() < 0.3]
+        return ["subclass", ["generic", "list", [sub()]], rng.random() < 0.3]
+    if r == 1:
+        name = rng.choice(list(ALIASES))
+        n = ALIASES[name][1]
+        return ["alias", name, [sub() for _ in range(n)] if rng.random() < 0.8 else []]
+    if r == 2:
+        return ["asynctask", sub()]
+    if r == 3:
+        return ["method", rng.choice(["append", "copy", "nope"]), sub()]
+    if r == 4:
+        return ["overloaded", [_random_callable_wide(rng, sub, typevars) for _ in range(rng.randrange(2, 4))]]
+    if r in (5, 6):
+        return _random_callable_wide(rng, sub, typevars)
+    return [rng.choice(["ps_args", "ps_kwargs"]), rng.choice(["P", "Q"])]
+
+
+def random_spec(rng, depth: int = 2, typevars: bool = True, wide: bool = False):
+    """A random well-formed Value spec of nesting depth <= depth.  wide=True adds Type[...] over every TypedValue
+    subclass, type aliases with arguments, async tasks, bound methods, overloaded / ParamSpec / `...` callables with
+    several parameters per kind, NoReturnGuard / HasAttrGuard metadata (the default grammar is unchanged)."""
+    if wide and depth > 0 and rng.random() < 0.3:
+        return _random_wide(rng, depth, typevars)
     if depth <= 0 or rng.random() < 0.18:
         return random_leaf(rng, typevars)
-    sub = lambda: random_spec(rng, depth - 1, typevars)  # noqa: E731
+    sub = lambda: random_spec(rng, depth - 1, typevars, wide)  # noqa: E731
     r = rng.randrange(11)
     if r == 0:
         return ["generic", rng.choice(["list", "set", "frozenset", "Sequence", "Iterable"]), [sub()]]
@@ -649,7 +847,7 @@ def random_spec(rng, depth: int = 2, typevars: bool = True):
             inner = inner[1]
         metas = []
         for _ in range(rng.randrange(1, 3)):
-            m = random_meta(rng, depth, typevars)
+            m = random_meta(rng, depth, typevars, wide)
             # annotate_value() never keeps two metadata items that compare equal; two different specs can build equal
             # items (hasattr name [1.0] / hasattr name [1]: KnownValue.__eq__ compares unhashable literals with ==)
             if not any(_builds_equal(m, m2) for m2 in metas):
@@ -706,19 +904,232 @@ def _is_bottom_spec(s) -> bool:
     return s == ["never"] or s == ["any", "unreachable"]
 
 
-def random_map_spec(rng, depth: int = 1):
-    """{typevar name: spec}; replacement values never mention a variable of the map's own domain."""
+def random_map_spec(rng, depth: int = 1, wide: bool = False):
+    """{typevar name: spec}; replacement values never mention a variable of the map's own domain.
+    wide=True: replacement values from the wide grammar, and sometimes a binding of the ParamSpec P (a callable whose
+    parameters are spliced in, Any, or another ParamSpec)."""
     names = rng.sample(_TV, rng.randrange(1, 4))
+    bind_p = wide and rng.random() < 0.3
+    domain = set(names) | ({"P"} if bind_p else set())
     out = {}
     for name in names:
         for _ in range(5):
-            s = random_spec(rng, depth, typevars=rng.random() < 0.3)
-            if not (spec_typevars(s) & set(names)):
+            s = random_spec(rng, depth, rng.random() < 0.3, wide) if wide else random_spec(rng, depth, typevars=rng.random() < 0.3)
+            if not (spec_typevars(s) & domain):
                 out[name] = s
                 break
         else:
             out[name] = ["typed", "int"]
+    if bind_p:
+        r = rng.random()
+        if r < 0.2:
+            out["P"] = ["any", rng.choice(ANY_SOURCES)]
+        elif r < 0.4:
+            out["P"] = ["paramspec", "Q"]
+        else:
+            anns = [random_spec(rng, max(0, depth - 1), False, True) for _ in range(3)]
+            anns = [["typed", "int"] if a[0] in ("seq", "typeddict") else a for a in anns]
+            params = [["q0", "pk", None, anns[0]], ["q1", "va", None, anns[1]], ["q2", "ko", None, anns[2]]]
+            out["P"] = ["callable", [p for p in params if rng.random() < 0.6], ["known", "None"], None]
     return out
+
+
+# ---------------------------------------------------------------------------
+# the nesting matrix: every constructor that can hold a Value x every slot it has x every constructor that can sit
+# in that slot, with a type variable at the leaf.  Purely enumerative (no rng).
+
+# spec kinds that build a TypedValue (or a subclass): legal arguments of SubclassValue beside a TypeVarValue
+TYPED_KINDS = {"typed", "typed_lit", "newtype", "generic", "seq", "dict", "typeddict", "callable", "overloaded",
+               "asynctask"}
+
+
+def _never_inner(x) -> bool:
+    return False
+
+
+def inner_specs(tv: str = "T") -> list:
+    """(tag, spec): one value per constructor / slot, each mentioning the type variable `tv` (at a leaf)."""
+    t = ["typevar", tv]
+    lt = ["generic", "list", [t]]
+    return [
+        ("TypeVar", t),
+        ("Generic", lt),
+        ("Generic.args[1]", ["generic", "dict", [_S, lt]]),
+        ("Sequence", ["seq", "tuple", [[False, t], [False, _I]]]),
+        ("Sequence[many]", ["seq", "tuple", [[False, _I], [True, t]]]),
+        ("Sequence[list]", ["seq", "list", [[False, t]]]),
+        ("DictIncomplete.value", ["dict", [[["known", "'x'"], t, False, True]]]),
+        ("DictIncomplete.key", ["dict", [[t, _I, True, False]]]),
+        ("TypedDict.item", ["typeddict", {"a": [t, True, False]}, None, False]),
+        ("TypedDict.extra_keys", ["typeddict", {"a": [_I, False, True]}, t, True]),
+        ("Callable.param", ["callable", [["x", "pk", None, t]], _I, None]),
+        ("Callable.return", ["callable", [], t, None]),
+        ("Callable.*args", ["callable", [["a", "va", None, t]], _N, None]),
+        ("Callable.**kwargs", ["callable", [["k", "ko", ["known", "1"], t], ["kw", "vk", None, t]], _N, "fn_one"]),
+        ("Callable[Concatenate,P]", ["callable", [["x", "po", None, t], ["p", "ps", None, ["paramspec", "P"]]], t, None]),
+        ("Callable[...]", ["callable", [["e", "el", None, ["any", "explicit"]]], t, None]),
+        ("Callable[overloaded]", ["overloaded", [["callable", [["x", "po", None, _I]], _I, None],
+                                                ["callable", [["x", "po", None, t]], lt, None]]]),
+        ("Annotated.value", ["annotated", t, [["deprecated", "old"]]]),
+        ("Annotated.metadata", ["annotated", _I, [lt]]),
+        ("TypeGuard", ["annotated", ["typed", "bool"], [["typeguard", t]]]),
+        ("TypeIs", ["annotated", ["typed", "bool"], [["typeis", lt]]]),
+        ("ParameterTypeGuard", ["annotated", _I, [["param_typeguard", "x", t]]]),
+        ("NoReturnGuard", ["annotated", _N, [["noreturn_guard", "x", t]]]),
+        ("HasAttr", ["annotated", ["typed", "C"], [["hasattr", "attr", t]]]),
+        ("HasAttrGuard", ["annotated", ["typed", "bool"], [["hasattr_guard", "x", "attr", t]]]),
+        ("CustomCheck", ["annotated", _I, [["check_gt", tv]]]),
+        ("Subclass", ["subclass", t, False]),
+        ("Subclass(Generic)", ["subclass", lt, False]),
+        ("Subclass(Sequence)[exactly]", ["subclass", ["seq", "tuple", [[False, t], [False, _I]]], True]),
+        ("Union", ["union", [t, _I]]),
+        ("Union(Generic)", ["union", [_N, lt]]),
+        ("TypeAlias", ["alias", "ListOf", [t]]),
+        ("TypeAlias.args[1]", ["alias", "PairOf", [_I, lt]]),
+        ("AsyncTask", ["asynctask", t]),
+        ("UnboundMethod", ["method", "append", lt]),
+    ]
+
+
+def _not(*kinds):
+    return lambda x: x[0] not in kinds
+
+
+def _typed_or_tv(x) -> bool:
+    return x[0] in TYPED_KINDS or x[0] == "typevar"
+
+
+def _any(x) -> bool:
+    return True
+
+
+def holder_slots() -> list:
+    """(tag, applicable(inner_spec), make(inner_spec) -> spec): every slot of every constructor that holds a Value.
+    `applicable` keeps the result inside the normal form the checks assume (no nested Annotated, no union directly
+    inside a raw union, Type[...] only over a TypedValue or a type variable, *args/**kwargs not tuple-/TypedDict-
+    annotated because Signature.make would expand them)."""
+    no_union = _not("union")
+    return [
+        ("Generic.args[0]", _any, lambda x: ["generic", "list", [x]]),
+        ("Generic.args[0|1]", _any, lambda x: ["generic", "dict", [x, _I]]),
+        ("Generic.args[1|1]", _any, lambda x: ["generic", "Mapping", [_S, x]]),
+        ("Sequence.members", _any, lambda x: ["seq", "tuple", [[False, _S], [False, x]]]),
+        ("Sequence.members[many]", _any, lambda x: ["seq", "list", [[True, x], [False, _I]]]),
+        ("KVPair.key", _any, lambda x: ["dict", [[x, _I, False, True]]]),
+        ("KVPair.value", _any, lambda x: ["dict", [[["known", "'x'"], x, False, True], [_S, x, True, False]]]),
+        ("TypedDictEntry.typ", _any, lambda x: ["typeddict", {"a": [_I, True, False], "b": [x, False, True]}, None, False]),
+        ("TypedDict.extra_keys", _any, lambda x: ["typeddict", {"a": [_I, True, False]}, x, False]),
+        ("SigParameter[po].annotation", _any, lambda x: ["callable", [["x", "po", None, x]], _I, None]),
+        ("SigParameter[pk=default].annotation", _any, lambda x: ["callable", [["x", "pk", ["known", "None"], x]], _I, "fn_one"]),
+        ("SigParameter[*args].annotation", _not("seq"), lambda x: ["callable", [["a", "va", None, x]], _I, None]),
+        ("SigParameter[ko].annotation", _any, lambda x: ["callable", [["x", "po", None, _I], ["k", "ko", None, x]], _I, None]),
+        ("SigParameter[**kwargs].annotation", _not("typeddict"), lambda x: ["callable", [["kw", "vk", None, x]], _I, None]),
+        ("Signature.return_value", _any, lambda x: ["callable", [["x", "pk", None, _I]], x, None]),
+        ("Signature[Concatenate,P].parameters", _any,
+         lambda x: ["callable", [["x", "po", None, x], ["p", "ps", None, ["paramspec", "P"]]], _I, None]),
+        ("Signature[Concatenate,P].return_value", _any,
+         lambda x: ["callable", [["p", "ps", None, ["paramspec", "P"]]], x, None]),
+        ("Signature[...].return_value", _any, lambda x: ["callable", [["e", "el", None, ["any", "explicit"]]], x, None]),
+        ("OverloadedSignature.signatures", _any,
+         lambda x: ["overloaded", [["callable", [["x", "po", None, _I]], _S, None], ["callable", [["x", "po", None, x]], x, None]]]),
+        ("Annotated.value", _not("annotated"), lambda x: ["annotated", x, [["deprecated", "old"]]]),
+        ("Annotated.metadata", _any, lambda x: ["annotated", _I, [x]]),
+        ("TypeGuardExtension", _any, lambda x: ["annotated", ["typed", "bool"], [["typeguard", x]]]),
+        ("TypeIsExtension", _any, lambda x: ["annotated", ["typed", "bool"], [["typeis", x]]]),
+        ("ParameterTypeGuardExtension", _any, lambda x: ["annotated", _I, [["param_typeguard", "x", x]]]),
+        ("NoReturnGuardExtension", _any, lambda x: ["annotated", _N, [["noreturn_guard", "x", x]]]),
+        ("HasAttrExtension", _any, lambda x: ["annotated", ["typed", "C"], [["hasattr", "attr", x]]]),
+        ("HasAttrGuardExtension", _any, lambda x: ["annotated", ["typed", "bool"], [["hasattr_guard", "x", "attr", x]]]),
+        ("Subclass.typ", _typed_or_tv, lambda x: ["subclass", x, False]),
+        ("Subclass[exactly].typ", _typed_or_tv, lambda x: ["subclass", x, True]),
+        ("Union.vals", no_union, lambda x: ["union", [_S, x]]),
+        ("TypeAlias.type_arguments", _any, lambda x: ["alias", "ListOf", [x]]),
+        ("TypeAlias.type_arguments[1]", _any, lambda x: ["alias", "PairOf", [_I, x]]),
+        ("AsyncTask.value", _any, lambda x: ["asynctask", x]),
+        ("UnboundMethod.composite", _any, lambda x: ["method", "copy", x]),
+    ]
+
+
+def nesting_specs(levels: int = 2, level2_inners: Optional[Iterable[str]] = ("TypeVar", "Generic")) -> list:
+    """(tag, spec) for holder(inner) over all slots x all inner_specs(), and (levels >= 2) holder(holder(inner)) over
+    all slots x all slots x the inners named in `level2_inners` (None: all)."""
+    slots = holder_slots()
+    inners = inner_specs()
+    out = []
+    for htag, ok, make in slots:
+        for itag, inner in inners:
+            if ok(inner):
+                out.append((f"{htag} <- {itag}", make(inner)))
+    if levels >= 2:
+        for itag, inner in inners:
+            if level2_inners is not None and itag not in level2_inners:
+                continue
+            for h1tag, ok1, make1 in slots:
+                if not ok1(inner):
+                    continue
+                mid = make1(inner)
+                for h2tag, ok2, make2 in slots:
+                    if ok2(mid):
+                        out.append((f"{h2tag} <- {h1tag} <- {itag}", make2(mid)))
+    return out
+
+
+_Q0 = ["callable", [["q0", "pk", None, _S], ["q1", "ko", None, _U]], _N, None]
+
+# maps for the nesting matrix (beside CORE_MAPS): replacement values of every constructor, ParamSpec bindings
+NEST_MAPS = [
+    {"T": ["subclass", _I, False]},
+    {"T": ["seq", "tuple", [[False, _I], [True, _U]]]},
+    {"T": ["typeddict", {"a": [_U, True, False]}, None, False]},
+    {"T": ["callable", [["x", "pk", None, _U]], _U, None]},
+    {"T": ["alias", "ListOf", [_I]]},
+    {"T": ["known_u", "[1]", "m"]},
+    {"P": _Q0},
+    {"P": ["any", "explicit"]},
+    {"P": ["paramspec", "Q"]},
+    {"T": ["typed", "bytes"], "P": ["callable", [], _I, None]},
+]
+
+# neighbouring values that pyanalyze's == may or may not identify: every ordered pair inside a group goes through the
+# binary laws (equal values must hash equal / be merged)
+NEIGHBOUR_GROUPS = [
+    # the same parameters in another order: keyword-only (equivalent signatures), positional (different signatures)
+    [["callable", [["a", "ko", None, _I], ["b", "ko", None, _S]], _N, None],
+     ["callable", [["b", "ko", None, _S], ["a", "ko", None, _I]], _N, None]],
+    [["callable", [["a", "po", None, _I], ["b", "po", None, _S]], _N, None],
+     ["callable", [["b", "po", None, _S], ["a", "po", None, _I]], _N, None],
+     ["callable", [["a", "pk", None, _I], ["b", "pk", None, _S]], _N, None],
+     ["callable", [["b", "pk", None, _S], ["a", "pk", None, _I]], _N, None]],
+    [["overloaded", [["callable", [["x", "po", None, _I]], _I, None], ["callable", [["x", "po", None, _S]], _S, None]]],
+     ["overloaded", [["callable", [["x", "po", None, _S]], _S, None], ["callable", [["x", "po", None, _I]], _I, None]]]],
+    # TypedDict: key order, required / readonly / extra_keys flags
+    [["typeddict", {"a": [_I, True, False], "b": [_S, True, False]}, None, False],
+     ["typeddict", {"b": [_S, True, False], "a": [_I, True, False]}, None, False],
+     ["typeddict", {"a": [_I, False, False], "b": [_S, True, False]}, None, False],
+     ["typeddict", {"a": [_I, True, True], "b": [_S, True, False]}, None, False],
+     ["typeddict", {"a": [_I, True, False], "b": [_S, True, False]}, _S, False],
+     ["typeddict", {"a": [_I, True, False], "b": [_S, True, False]}, _S, True]],
+    # dict-incomplete: pair order and flags
+    [["dict", [[["known", "'x'"], _I, False, True], [["known", "'y'"], _S, False, True]]],
+     ["dict", [[["known", "'y'"], _S, False, True], [["known", "'x'"], _I, False, True]]],
+     ["dict", [[["known", "'x'"], _I, False, False], [["known", "'y'"], _S, False, True]]],
+     ["dict", [[["known", "'x'"], _I, True, True], [["known", "'y'"], _S, False, True]]]],
+    # Type[...]: exactly flag, argument classes
+    [["subclass", ["generic", "list", [_I]], False], ["subclass", ["generic", "list", [_I]], True],
+     ["subclass", ["typed", "list"], False], ["subclass", ["seq", "list", [[True, _I]]], False]],
+    # aliases: with / without arguments; the value they stand for
+    [["alias", "ListOf", []], ["alias", "ListOf", [_I]], ["alias", "ListOf", [_S]], ["generic", "list", [_I]],
+     ["alias", "IntOrStr", []], ["union", [_I, _S]]],
+    # generic / sequence / async task over the same type
+    [["generic", "Awaitable", [_I]], ["asynctask", _I], ["asynctask", _S]],
+    [["method", "append", ["generic", "list", [_I]]], ["method", "append", ["generic", "list", [_S]]],
+     ["method", "copy", ["generic", "list", [_I]]]],
+    [["ps_args", "P"], ["ps_kwargs", "P"], ["ps_args", "Q"], ["paramspec", "P"]],
+    # annotated: metadata order, extension kinds over the same guarded type
+    [["annotated", _I, [["deprecated", "old"], ["always_present"]]], ["annotated", _I, [["always_present"], ["deprecated", "old"]]],
+     ["annotated", _I, [["param_typeguard", "x", _S]]], ["annotated", _I, [["noreturn_guard", "x", _S]]],
+     ["annotated", _I, [["hasattr", "x", _S]]], ["annotated", _I, [["hasattr_guard", "x", "x", _S]]]],
+]
 
 
 # ---------------------------------------------------------------------------
